@@ -8,7 +8,7 @@ For a patch named  <P1>[+<P2>...]-<description>.patch  the checks of P1, P2, ...
 with --props).  With --baseline the repository's own test suite is first run on the patched tree
 (it must still pass: the point of a mutant is that the tests cannot see it).
 The patched tree lives under /root/scratch and is removed afterwards; /repo is never modified.
-Results are appended to /verif/evidence/sensitivity.json.
+Results are merged into /verif/sensitivity/mutants.json.
 """
 import json, os, re, subprocess, sys, time
 
@@ -90,7 +90,8 @@ def main():
     sh(["rm", "-rf", wt])
     sh(["git", "-C", "/repo", "worktree", "prune"])
 
-    path = os.path.join(ROOT, "evidence", "sensitivity.json")
+    os.makedirs(os.path.join(ROOT, "sensitivity"), exist_ok=True)
+    path = os.path.join(ROOT, "sensitivity", "mutants.json")
     old = []
     if os.path.exists(path):
         try: old = json.load(open(path)).get("results", [])
